@@ -409,9 +409,18 @@ impl<'a> Job for ProofJob<'a> {
         let proof: Proof = *proof;
         match ch.index("proof.part", 6) {
             0 => {
-            let v = proof;
-            check(ch, ctx, "Proof", &v)
-        },
+                let mut v = proof;
+                // the optional GKR proof at its boundary members (every value of the field is a
+                // value of the type, whatever the prover put there)
+                match ch.weighted("proof.gkr", &[3, 2, 2, 1, 1]) {
+                    0 => {},
+                    1 => v.gkr_proof = Some(vec![]),
+                    2 => v.gkr_proof = None,
+                    3 => v.gkr_proof = Some(vec![0xA5; [1usize, 127, 128, 129][ch.index("proof.gkrlen", 4)]]),
+                    _ => v.gkr_proof = Some((0..300 + ch.index("proof.gkrlen", 200)).map(|i| i as u8).collect()),
+                }
+                check(ch, ctx, "Proof", &v)
+            },
             1 => check::<Commitments>(ch, ctx, "Commitments", &proof.commitments),
             2 => {
                 let k = ch.index("proof.seg", proof.trace_queries.len());
@@ -442,7 +451,7 @@ pub fn spec() -> CheckSpec {
         id: "C12",
         level: "exploration",
         build: "serial",
-        rule: "one run = one value of one serializable type (integers, the variable-length size encoding at 2^(7k)-1 / 2^(7k) / 2^(7k)+1, 127/128/129, 2^56, u64::MAX; Option, tuples, arrays, String incl. multi-byte characters, Vec / BTreeMap / BTreeSet at lengths 0, 1, 127..129, 255..257, nestings; elements of the three base fields and their quadratic / cubic extensions at 0, 1, p-1 and random; byte and element digests of all six hashers; FieldExtension; ProofOptions at every boundary tuple; TraceInfo with 255 columns, auxiliary segments with 0..255 random elements, lengths 2^3..2^31, 0 / 1 / 65534 / 65535 metadata bytes; Context; and Commitments, Queries, OodFrame, FriProof and whole Proofs produced by the protocol sim incl. maximal query counts and remainders) x a 0..8-byte foreign suffix x one chunking of the simulated byte source x one schedule of short / interrupted writes of the simulated sink. decode(encode(x)) == x and exactly the written bytes are consumed on SliceReader, std::io::Cursor and ReadAdapter; the sink receives to_bytes(x). Non-trivial = a non-maximal chunking or short write fired; distinct = distinct event-log digests.".into(),
+        rule: "one run = one value of one serializable type (integers, the variable-length size encoding at 2^(7k)-1 / 2^(7k) / 2^(7k)+1, 127/128/129, 2^56, u64::MAX; Option, tuples, arrays, String incl. multi-byte characters, Vec / BTreeMap / BTreeSet at lengths 0, 1, 127..129, 255..257, nestings; elements of the three base fields and their quadratic / cubic extensions at 0, 1, p-1 and random; byte and element digests of all six hashers; FieldExtension; ProofOptions at every boundary tuple; TraceInfo with 255 columns, auxiliary segments with 0..255 random elements, lengths 2^3..2^31, 0 / 1 / 65534 / 65535 metadata bytes; Context; and Commitments, Queries, OodFrame, FriProof and whole Proofs produced by the protocol sim incl. maximal query counts and remainders and the optional GKR proof absent / empty / 1 / 127..129 / 300..499 bytes) x a 0..8-byte foreign suffix x one chunking of the simulated byte source x one schedule of short / interrupted writes of the simulated sink. decode(encode(x)) == x and exactly the written bytes are consumed on SliceReader, std::io::Cursor and ReadAdapter; the sink receives to_bytes(x). Non-trivial = a non-maximal chunking or short write fired; distinct = distinct event-log digests.".into(),
         interleaving_measure: "distinct (value, suffix, source chunk boundaries, sink write boundaries) histories".into(),
         real: vec!["every Serializable / Deserializable impl listed in the rule", "SliceReader, Cursor impl, ReadAdapter, ByteWriter for std::io::Write"],
         stub: vec!["the byte source and the byte sink (SimRead / SimWrite)"],
